@@ -1,4 +1,5 @@
 import LasioProofs.Lemmas.TransformWords
+import LasioProofs.Props.C04
 /-
 C09, §9: the line-by-line relation `Sim` between two documents (equivalent lines; blank and comment lines come and go
 outside ~Other sections), its projection onto the document structure, and the whole-file theorem `readFull_sim`.
@@ -13,6 +14,7 @@ open Lasio Lasio.Dt
 inductive Ctx where
   | pre
   | sec (t : Str)
+deriving DecidableEq
 
 /-- lines a reader of the section cannot tell apart -/
 def BodyEq (dlm : Dlm) : Ctx → Str → Str → Prop
@@ -921,5 +923,473 @@ theorem readBody_rewrap (o : DataOpts) (st : Steer) (d : Nat) (ft : FloatTable) 
   unfold readBody
   simp only [effective_wrapped o hs.wrapped]
   exact normalRead_rewrap o st d ft dcl widths body hs h
+
+end Lasio.Tf
+
+/-! ### one data section replaced -/
+namespace Lasio.Tf
+open Lasio Lasio.Dt
+
+theorem flat_append (a b : List (Str × List Str)) : Rd.flat (a ++ b) = Rd.flat a ++ Rd.flat b := by
+  induction a with
+  | nil => rfl
+  | cons tb rest ih => obtain ⟨t, x⟩ := tb; simp [Rd.flat, ih]
+
+theorem bodySim_refl (dlm : Dlm) (b : List Str) : BodySim dlm b b := by
+  induction b with
+  | nil => exact .nil
+  | cons a l ih => exact .line (dataEq_of_strip dlm rfl) ih
+
+theorem secRel_refl (tb : Str × List Str) : SecRel tb tb where
+  title := rfl
+  items := fun _ o _ p _ n n' l h => Rd.bodyRun_ok_indep o p tb.2 n n' l h
+  other := fun _ => rfl
+
+theorem agreeAlone_of_normal (o : DataOpts) (st : Steer) (d : Nat) (ft : FloatTable) (b : List Str)
+    (h : effectiveEngine o st = .normal) : AgreeAlone o st d ft b := by
+  unfold AgreeAlone readBody
+  simp only [h]
+
+theorem wellFormed_tail {tb : Str × List Str} {rest : List (Str × List Str)} (h : Rd.WellFormed (tb :: rest)) : Rd.WellFormed rest :=
+  fun x hx => h x (List.mem_cons_of_mem _ hx)
+
+theorem wellFormed_append_right {a b : List (Str × List Str)} (h : Rd.WellFormed (a ++ b)) : Rd.WellFormed b :=
+  fun x hx => h x (List.mem_append_right _ hx)
+
+theorem docRel_refl (o : DataOpts) (ft : FloatTable) (G : Steer → Nat → List Str → Prop) (secs : List (Str × List Str)) :
+    DocRel o ft G secs secs := by
+  induction secs with
+  | nil => exact .nil
+  | cons tb rest ih => exact .cons (secRel_refl tb) (fun _ _ _ _ => rfl) ih
+
+/-- Replace the body of ONE section: the sections before it see other lines after themselves (which matters to the numpy
+engine only through `AfterOK`), the sections after it see nothing. -/
+theorem docRel_replace (o : DataOpts) (ft : FloatTable) (htf : TildeNotFloat ft) (G : Steer → Nat → List Str → Prop)
+    (hGA : ∀ st d x, G st d x → AgreeAlone o st d ft x)
+    (s₁ s₂ : List (Str × List Str)) (t : Str) (b b' : List Str)
+    (hw : Rd.WellFormed (s₁ ++ (t, b) :: s₂)) (hw' : Rd.WellFormed (s₁ ++ (t, b') :: s₂))
+    (hsec : SecRel (t, b) (t, b'))
+    (hdata : isDataKind (kindOf t) → ∀ st d, G st d b →
+      (readBody o st d ft b (Rd.flat s₂)).map Prod.snd = (readBody o st d ft b' (Rd.flat s₂)).map Prod.snd) :
+    DocRel o ft G (s₁ ++ (t, b) :: s₂) (s₁ ++ (t, b') :: s₂) := by
+  induction s₁ with
+  | nil => exact .cons hsec hdata (docRel_refl o ft G s₂)
+  | cons x rest ih =>
+    have hwr := wellFormed_tail hw
+    have hwr' := wellFormed_tail hw'
+    refine .cons (secRel_refl x) ?_ (ih hwr hwr')
+    intro _ st d hg
+    exact readBody_sim o st d ft (bodySim_refl st.delimiter x.2) (afterOK_flat ft htf _ hwr) (afterOK_flat ft htf _ hwr')
+      (hGA st d x.2 hg)
+
+theorem size_eq_flat_length (secs : List (Str × List Str)) : Rd.size secs = (Rd.flat secs).length := (Rd.flat_length secs).symm
+
+/-- `rewrap` on the document structure: the body of the addressed data section is replaced -/
+theorem rewrap_struct (pre : List Str) (s₁ s₂ : List (Str × List Str)) (t : Str) (body : List Str) (dcl : Nat) (widths : List Nat) :
+    rewrap (pre.length + Rd.size s₁) (pre.length + Rd.size s₁ + body.length) dcl widths
+        (pre ++ Rd.flat (s₁ ++ (t, body) :: s₂)) =
+      pre ++ Rd.flat (s₁ ++ (t, rewrapBody dcl widths body) :: s₂) := by
+  have hA : (pre ++ Rd.flat s₁).length = pre.length + Rd.size s₁ := by simp [size_eq_flat_length]
+  have e : pre ++ Rd.flat (s₁ ++ (t, body) :: s₂) = (pre ++ Rd.flat s₁) ++ t :: (body ++ Rd.flat s₂) := by
+    simp [flat_append, Rd.flat]
+  unfold rewrap
+  rw [e, ← hA, bodyLines_at]
+  have h1 : ((pre ++ Rd.flat s₁) ++ t :: (body ++ Rd.flat s₂)).take ((pre ++ Rd.flat s₁).length + 1) = (pre ++ Rd.flat s₁) ++ [t] := by
+    rw [List.take_append, List.take_of_length_le (by omega)]
+    simp
+  have h2 : ((pre ++ Rd.flat s₁) ++ t :: (body ++ Rd.flat s₂)).drop ((pre ++ Rd.flat s₁).length + body.length + 1) = Rd.flat s₂ := by
+    have : (pre ++ Rd.flat s₁).length + body.length + 1 = ((pre ++ Rd.flat s₁).length + 1) + body.length := by omega
+    rw [this, ← List.drop_drop, drop_at, List.drop_left]
+  rw [h1, h2]
+  simp [flat_append, Rd.flat]
+
+end Lasio.Tf
+
+/-! ### a blank / comment line inserted at a given place -/
+namespace Lasio.Tf
+open Lasio Lasio.Dt
+
+theorem bodySim_insert (dlm : Dlm) (b₁ b₂ : List Str) (s : Str) (hs : SkipLine s) : BodySim dlm (b₁ ++ b₂) (b₁ ++ s :: b₂) := by
+  induction b₁ with
+  | nil => exact .insR hs (bodySim_refl dlm b₂)
+  | cons x xs ih => exact .line (dataEq_of_strip dlm rfl) ih
+
+theorem bodyRun_cons_congr (o : Rd.ReadOpts) (p : Rd.Parser) (x : Str) (ls ls' : List Str)
+    (h : ∀ n n' l, Rd.bodyRun o p ls n = .ok l → Rd.bodyRun o p ls' n' = .ok l) :
+    ∀ n n' l, Rd.bodyRun o p (x :: ls) n = .ok l → Rd.bodyRun o p (x :: ls') n' = .ok l := by
+  intro n n' l hl
+  simp only [Rd.bodyRun] at hl ⊢
+  cases hr : Rd.lineRes o p x with
+  | item it =>
+    simp only [hr] at hl ⊢
+    cases hb : Rd.bodyRun o p ls (n + 1) with
+    | error e => simp [hb] at hl
+    | ok r =>
+      simp only [hb] at hl
+      rw [h (n + 1) (n' + 1) r hb]
+      exact hl
+  | bad =>
+    simp only [hr] at hl ⊢
+    cases hi : o.ignoreHeaderErrors with
+    | true => simp only [hi, if_true] at hl ⊢; exact h _ _ l hl
+    | false => simp [hi] at hl
+  | skip => simp only [hr] at hl ⊢; exact h _ _ l hl
+  | title => simp only [hr] at hl ⊢; exact h _ _ l hl
+
+theorem bodyRun_insert (o : Rd.ReadOpts) (p : Rd.Parser) (l₁ l₂ : List Str) (s : Str) (hs : SkipLine s) :
+    ∀ n n' l, Rd.bodyRun o p (l₁ ++ l₂) n = .ok l → Rd.bodyRun o p (l₁ ++ s :: l₂) n' = .ok l := by
+  induction l₁ with
+  | nil =>
+    intro n n' l h
+    simp only [List.nil_append, Rd.bodyRun, skip_lineRes o p hs] at h ⊢
+    exact Rd.bodyRun_ok_indep o p l₂ n (n' + 1) l h
+  | cons x xs ih => exact bodyRun_cons_congr o p x _ _ ih
+
+end Lasio.Tf
+
+/-! ## §12 readable bases and single steps -/
+namespace Lasio.Tf
+open Lasio Lasio.Dt
+
+/-- a readable document on whose data sections the two engines agree -/
+structure Base (o : Opts) (nullOf : Option Str → Option Str) (ft : FloatTable) (d : Doc) (r : FullRead) : Prop where
+  read : readFull o nullOf ft d = .ok r
+  agree : AllData (AgreeAlone o.dat (dtSteer nullOf r.steer) (declaredCount r.sections) ft) (parse d).2
+
+theorem afterOK_nil (ft : FloatTable) : AfterOK ft [] := Or.inl rfl
+
+/-- agreement of the engines is inherited along `BodySim` -/
+theorem agreeAlone_sim (o : DataOpts) (st : Steer) (d : Nat) (ft : FloatTable) {b b' : List Str}
+    (h : BodySim st.delimiter b b') (ha : AgreeAlone o st d ft b) : AgreeAlone o st d ft b' := by
+  unfold AgreeAlone at ha ⊢
+  rw [← readBody_sim o st d ft h (afterOK_nil ft) (afterOK_nil ft) ha, ha, normalRead_sim o st d ft h]
+
+theorem agree_secSim (o : DataOpts) (st : Steer) (d : Nat) (ft : FloatTable) (dlm : Dlm) (hd : st.delimiter = dlm)
+    {secs secs' : List (Str × List Str)} (h : Forall2 (SecSim dlm) secs secs') (ha : AllData (AgreeAlone o st d ft) secs) :
+    AllData (AgreeAlone o st d ft) secs' := by
+  induction h with
+  | nil => intro tb h; cases h
+  | @cons tb tb' rest rest' hs _ ih =>
+    intro x hx hk
+    rcases List.mem_cons.mp hx with rfl | hx
+    · have hk' : isDataKind (kindOf tb.1) := by rw [kindOf_strip_congr hs.1]; exact hk
+      have hb : BodySim st.delimiter tb.2 x.2 := by rw [hd]; exact bsim_data dlm hk' hs.2
+      exact agreeAlone_sim o st d ft hb (ha tb List.mem_cons_self hk')
+    · exact ih (fun y hy => ha y (List.mem_cons_of_mem _ hy)) x hx hk
+
+/-- STEP along `Sim`: the transformed document is readable, with the same steering values and the same parsed result, and the
+engines still agree on its data sections -/
+theorem base_sim (o : Opts) (nullOf : Option Str → Option Str) (ft : FloatTable) (htf : TildeNotFloat ft) (dlm : Dlm)
+    (d d' : Doc) (r : FullRead) (hs : Sim dlm .pre d d') (hb : Base o nullOf ft d r)
+    (hd : (dtSteer nullOf r.steer).delimiter = dlm) :
+    ∃ r', Base o nullOf ft d' r' ∧ r'.steer = r.steer ∧ r'.parsed = r.parsed := by
+  have hG : AllData (SimGuard o.dat ft dlm (dtSteer nullOf r.steer) (declaredCount r.sections)) (parse d).2 :=
+    fun tb htb hk => ⟨hd, hb.agree tb htb hk⟩
+  obtain ⟨r', h1, h2, h3⟩ := readFull_sim o nullOf ft htf dlm d d' hs r hb.read hG
+  refine ⟨r', ⟨h1, ?_⟩, h2, h3⟩
+  have hsec : r'.sections = r.sections := congrArg Parsed.sections h3
+  rw [h2, hsec]
+  exact agree_secSim o.dat _ _ ft dlm hd (sim_parse dlm hs).2 hb.agree
+
+/-- the structure of a document given by its structure -/
+theorem parse_struct (pre : List Str) (secs : List (Str × List Str)) (hpre : ∀ x ∈ pre, Rd.isTitle x = false)
+    (hw : Rd.WellFormed secs) : parse (pre ++ Rd.flat secs) = (pre, secs) := by
+  induction pre with
+  | nil =>
+    simp only [List.nil_append]
+    induction secs with
+    | nil => rfl
+    | cons tb rest ih =>
+      obtain ⟨t, b⟩ := tb
+      have ht := (hw (t, b) List.mem_cons_self).1
+      have hbt := (hw (t, b) List.mem_cons_self).2
+      have ihr := ih (wellFormed_tail hw)
+      simp only [Rd.flat, List.cons_append]
+      rw [parse_title t _ ht]
+      -- the body lines are not titles: they are collected in front of the following sections
+      have hbody : ∀ (b : List Str), (∀ x ∈ b, Rd.isTitle x = false) → parse (b ++ Rd.flat rest) = (b, rest) := by
+        intro b hb
+        induction b with
+        | nil => exact ihr
+        | cons x xs ihb =>
+          rw [List.cons_append, parse_line x _ (hb x (by simp)), ihb (fun y hy => hb y (by simp [hy]))]
+      rw [hbody b hbt]
+  | cons x xs ih =>
+    rw [List.cons_append, parse_line x _ (hpre x (by simp)), ih (fun y hy => hpre y (by simp [hy]))]
+
+/-- STEP for `rewrap` -/
+theorem base_rewrap (o : Opts) (nullOf : Option Str → Option Str) (ft : FloatTable) (htf : TildeNotFloat ft)
+    (pre : List Str) (s₁ s₂ : List (Str × List Str)) (t : Str) (body : List Str) (dcl : Nat) (widths : List Nat) (r : FullRead)
+    (hpre : ∀ x ∈ pre, Rd.isTitle x = false) (hw : Rd.WellFormed (s₁ ++ (t, body) :: s₂)) (hk : isDataKind (kindOf t))
+    (hok : WrapOK body) (hb : Base o nullOf ft (pre ++ Rd.flat (s₁ ++ (t, body) :: s₂)) r)
+    (hst : WrapSteer (dtSteer nullOf r.steer) (declaredCount r.sections)) :
+    ∃ r', Base o nullOf ft (rewrap (pre.length + Rd.size s₁) (pre.length + Rd.size s₁ + body.length) dcl widths
+        (pre ++ Rd.flat (s₁ ++ (t, body) :: s₂))) r' ∧ r'.steer = r.steer ∧ r'.parsed = r.parsed := by
+  rw [rewrap_struct]
+  have hw' : Rd.WellFormed (s₁ ++ (t, rewrapBody dcl widths body) :: s₂) := by
+    intro tb htb
+    rcases List.mem_append.mp htb with h | h
+    · exact hw tb (List.mem_append_left _ h)
+    · rcases List.mem_cons.mp h with rfl | h
+      · exact ⟨(hw (t, body) (by simp)).1, rewrapBody_no_title dcl widths body hok⟩
+      · exact hw tb (List.mem_append_right _ (List.mem_cons_of_mem _ h))
+  let G : Steer → Nat → List Str → Prop := fun st d _ => WrapSteer st d
+  have hGA : ∀ st d x, G st d x → AgreeAlone o.dat st d ft x :=
+    fun st d x hg => agreeAlone_of_normal o.dat st d ft x (effective_wrapped o.dat hg.wrapped)
+  have hsec : SecRel (t, body) (t, rewrapBody dcl widths body) := by
+    refine ⟨rfl, ?_, ?_⟩
+    · intro hi; rcases hk with h | h <;> rw [hi] at h <;> cases h
+    · intro hi; rcases hk with h | h <;> rw [hi] at h <;> cases h
+  have hrel := docRel_replace o.dat ft htf G hGA s₁ s₂ t body (rewrapBody dcl widths body) hw hw' hsec
+    (fun _ st d hg => by rw [readBody_rewrap o.dat st d ft dcl widths body (Rd.flat s₂) (Rd.flat s₂) hg hok])
+  obtain ⟨r', h1, h2, h3⟩ := readFull_rel o nullOf ft G pre pre _ _ hpre hpre hw hw' hrel r hb.read (fun _ _ _ => hst)
+  refine ⟨r', ⟨h1, ?_⟩, h2, h3⟩
+  have hsecs : r'.sections = r.sections := congrArg Parsed.sections h3
+  rw [h2, hsecs, parse_struct pre _ hpre hw']
+  intro tb _ _
+  exact agreeAlone_of_normal o.dat _ _ ft tb.2 (effective_wrapped o.dat hst.wrapped)
+
+end Lasio.Tf
+
+/-! ### the side conditions are decidable -/
+namespace Lasio.Tf
+open Lasio Lasio.Dt
+
+instance (l : Str) : Decidable (NoInnerNl l) := by unfold NoInnerNl; infer_instance
+instance (s : Str) : Decidable (QuoteFree s) := by unfold QuoteFree; infer_instance
+instance (k : Rd.SecKind) : Decidable (isDataKind k) := by unfold isDataKind; infer_instance
+instance (c : Ctx) : Decidable (Insertable c) :=
+  match c with
+  | .pre => isTrue trivial
+  | .sec t => inferInstanceAs (Decidable (kindOf t ≠ .other))
+instance (st : Steer) (d : Nat) : Decidable (WrapSteer st d) :=
+  if h : st.delimiter = .space ∧ st.wrapDeclared = true ∧ st.wrapped = yesTxt ∧ 0 < d then
+    isTrue ⟨h.1, h.2.1, h.2.2.1, h.2.2.2⟩
+  else isFalse (fun w => h ⟨w.dlm, w.declared, w.wrapped, w.pos⟩)
+instance (body : List Str) : Decidable (WrapOK body) :=
+  if h : (∀ l ∈ body, QuoteFree l) ∧ (∀ w ∈ bodyWords body, w.head? ≠ some '#' ∧ w.head? ≠ some '~') ∧
+      (∀ w ∈ bodyWords body, lineToks Subs.default w = lineToks Subs.default.dropHyphen w) then
+    isTrue ⟨h.1, h.2.1, h.2.2⟩
+  else isFalse (fun w => h ⟨w.qf, w.heads, w.hyphen⟩)
+
+end Lasio.Tf
+
+/-! ### the lines `io.StringIO` yields are physical lines -/
+namespace Lasio.Tf
+open Lasio Lasio.Dt
+
+theorem noInnerNl_plain (t : Str) (h : '\n' ∉ t) : NoInnerNl t := by
+  unfold NoInnerNl splitEol
+  have hr : '\n' ∉ t.reverse := fun hm => h (List.mem_reverse.mp hm)
+  split
+  · rename_i r heq; rw [heq] at hr; simp at hr
+  · rename_i r heq; rw [heq] at hr; simp at hr
+  · exact h
+
+theorem noInnerNl_terminated (t : Str) (h : '\n' ∉ t) : NoInnerNl (t ++ ['\n']) := by
+  unfold NoInnerNl splitEol
+  rw [List.reverse_append]
+  simp only [List.reverse_cons, List.reverse_nil, List.nil_append, List.cons_append]
+  cases hr : t.reverse with
+  | nil => simp
+  | cons c r =>
+    have ht : t = (c :: r).reverse := by rw [← hr, List.reverse_reverse]
+    have hsub : ∀ x ∈ r.reverse, x ∈ t := fun x hx => by rw [ht]; simp at hx ⊢; exact Or.inl hx
+    by_cases hc : c = '\r'
+    · subst hc
+      simp only
+      exact fun hm => h (hsub _ hm)
+    · have : ('\n' :: c :: r).reverse = t ++ ['\n'] := by rw [ht]; simp
+      split
+      · rename_i r' heq; cases heq; exact absurd rfl hc
+      · rename_i r' heq
+        cases heq
+        rw [← ht]; exact h
+      · rename_i _ hne
+        exact absurd rfl (hne (c :: r))
+
+theorem splitLinesAux_physical (text acc : Str) (hacc : '\n' ∉ acc) : ∀ l ∈ Rd.splitLinesAux text acc, NoInnerNl l := by
+  induction text generalizing acc with
+  | nil =>
+    intro l hl
+    simp only [Rd.splitLinesAux] at hl
+    split at hl
+    · cases hl
+    · simp only [List.mem_singleton] at hl
+      subst hl
+      exact noInnerNl_plain _ (fun hm => hacc (List.mem_reverse.mp hm))
+  | cons c cs ih =>
+    intro l hl
+    simp only [Rd.splitLinesAux] at hl
+    split at hl
+    · rename_i hc
+      have hc' : c = '\n' := by simpa using hc
+      subst hc'
+      rcases List.mem_cons.mp hl with rfl | hl
+      · rw [List.reverse_cons]
+        exact noInnerNl_terminated _ (fun hm => hacc (List.mem_reverse.mp hm))
+      · exact ih [] (by simp) l hl
+    · rename_i hc
+      have hc' : c ≠ '\n' := by simpa using hc
+      exact ih (c :: acc) (by
+        intro hm
+        rcases List.mem_cons.mp hm with h | h
+        · exact hc' h.symm
+        · exact hacc h) l hl
+
+/-- every line of a text split as `io.StringIO` does has its line feed at the end only -/
+theorem splitLines_physical (text : Str) : ∀ l ∈ Rd.splitLines text, NoInnerNl l :=
+  splitLinesAux_physical text [] (by simp)
+
+end Lasio.Tf
+
+/-! ## §13 the layout of a header line (through C04) -/
+namespace Lasio.Tf
+open Lasio Lasio.Dt
+
+theorem rstrip_last (x : Str) : rstrip x = [] ∨ ∃ ini z, rstrip x = ini ++ [z] ∧ isPySpace z = false := by
+  unfold rstrip
+  rcases dropWhile_head isPySpace x.reverse with h | ⟨c, cs, h, hc⟩
+  · left; rw [h]; rfl
+  · right; exact ⟨cs.reverse, c, by rw [h]; simp, hc⟩
+
+/-- a non-empty stripped string starts and ends with a non-blank -/
+theorem solid_of_strip (s : Str) (hs : strip s = s) (hne : s ≠ []) : Solid s := by
+  constructor
+  · rcases strip_head s with h | ⟨c, cs, h, hc⟩
+    · rw [hs] at h; exact absurd h hne
+    · rw [hs] at h; exact ⟨c, cs, h, hc⟩
+  · have : strip s = rstrip (lstrip s) := rfl
+    rcases rstrip_last (lstrip s) with h | ⟨ini, z, h, hz⟩
+    · rw [← this, hs] at h; exact absurd h hne
+    · rw [← this, hs] at h; exact ⟨ini, z, h, hz⟩
+
+theorem solid_append {a b : Str} (ha : Solid a) (hb : Solid b) (m : Str) : Solid (a ++ (m ++ b)) := by
+  obtain ⟨h, tl, e1, hh⟩ := ha.head
+  obtain ⟨ini, z, e2, hz⟩ := hb.last
+  exact ⟨⟨h, tl ++ (m ++ b), by rw [e1]; rfl, hh⟩, ⟨a ++ (m ++ ini), z, by rw [e2]; simp, hz⟩⟩
+
+/-- the padding left in front of the description after `strip()` -/
+def descrPad (f : Fields) (p4 : Str) : Str := if f.descr = [] then [] else p4
+
+/-- what the reader's `strip()` leaves of a laid-out line -/
+theorem strip_layout (sec : SecName) (f : Fields) (hc : Conf sec f) (P0 P1 P2 P3 P4 P5 e : Str)
+    (h0 : AllWs P0) (h4 : AllWs P4) (h5 : AllWs P5) (he : AllWs e) :
+    strip (layoutFields f P0 P1 P2 P3 P4 P5 ++ e) = layoutFields f [] P1 P2 P3 (descrPad f P4) [] := by
+  have hname : Solid f.name := solid_of_strip f.name hc.name_strip hc.name_ne
+  have hcolon : Solid [':'] := ⟨⟨':', [], rfl, by decide⟩, ⟨[], ':', rfl, by decide⟩⟩
+  by_cases hd : f.descr = []
+  · have hM : Solid (f.name ++ ((P1 ++ '.' :: (f.unit ++ P2 ++ f.value ++ P3)) ++ [':'])) := solid_append hname hcolon _
+    have e1 : layoutFields f P0 P1 P2 P3 P4 P5 ++ e =
+        P0 ++ ((f.name ++ ((P1 ++ '.' :: (f.unit ++ P2 ++ f.value ++ P3)) ++ [':'])) ++ (P4 ++ P5 ++ e)) := by
+      simp [layoutFields, hd]
+    have e2 : layoutFields f [] P1 P2 P3 (descrPad f P4) [] = f.name ++ ((P1 ++ '.' :: (f.unit ++ P2 ++ f.value ++ P3)) ++ [':']) := by
+      simp [layoutFields, descrPad, hd]
+    rw [e1, e2]
+    exact strip_sandwich P0 _ _ h0 (allWs_append (allWs_append h4 h5) he) hM
+  · have hdescr : Solid f.descr := solid_of_strip f.descr hc.descr_strip hd
+    have hM : Solid (f.name ++ ((P1 ++ '.' :: (f.unit ++ P2 ++ f.value ++ P3) ++ ':' :: P4) ++ f.descr)) :=
+      solid_append hname hdescr _
+    have e1 : layoutFields f P0 P1 P2 P3 P4 P5 ++ e =
+        P0 ++ ((f.name ++ ((P1 ++ '.' :: (f.unit ++ P2 ++ f.value ++ P3) ++ ':' :: P4) ++ f.descr)) ++ (P5 ++ e)) := by
+      simp [layoutFields]
+    have e2 : layoutFields f [] P1 P2 P3 (descrPad f P4) [] =
+        f.name ++ ((P1 ++ '.' :: (f.unit ++ P2 ++ f.value ++ P3) ++ ':' :: P4) ++ f.descr) := by
+      simp [layoutFields, descrPad, hd]
+    rw [e1, e2]
+    exact strip_sandwich P0 _ _ h0 (allWs_append h5 he) hM
+
+/-- the side condition of `relayout` on the line: the reader parses it to conformant fields (C04's `Conf`), the new paddings —
+as the reader meets them after `strip()` — are admissible (C04's `PadOK`), and neither the line nor the mnemonic starts with
+`#` or `~` -/
+structure RelayOK (sec : SecName) (p1 p2 p3 p4 : Str) (a : Str) (f : Fields) : Prop where
+  parsed : parseHeaderLine sec (strip a) = some f
+  conf : Conf sec f
+  pads : PadOK sec f [] (blanksOf p1) (blanksOf p2) (blanksOf p3) (descrPad f (blanksOf p4)) []
+  line_ne : strip a ≠ []
+  line_head : (strip a).head? ≠ some '#' ∧ (strip a).head? ≠ some '~'
+  name_head : f.name.head? ≠ some '#' ∧ f.name.head? ≠ some '~'
+
+theorem lineRes_item (o : Rd.ReadOpts) (p : Rd.Parser) (a : Str) (f : Fields) (hne : strip a ≠ [])
+    (hh : (strip a).head? ≠ some '#' ∧ (strip a).head? ≠ some '~') (hp : parseHeaderLine p.sec (strip a) = some f) :
+    Rd.lineRes o p a = .item (Rd.mkItem' p { f with name := Rd.applyCase o.mnemonicCase f.name }) := by
+  unfold Rd.lineRes
+  rw [Rd.lineStrip_eq_strip]
+  cases hs : strip a with
+  | nil => exact absurd hs hne
+  | cons c cs =>
+    rw [hs] at hh hp
+    have h1 : c ≠ '#' := fun e => hh.1 (by simp [e])
+    have h2 : c ≠ '~' := fun e => hh.2 (by simp [e])
+    have h3 : Rd.startsTilde (c :: cs) = false := by
+      unfold Rd.startsTilde
+      split
+      · rename_i heq; cases heq; exact absurd rfl h2
+      · rfl
+    simp [h1, h3, hp]
+
+/-- HEADER LINE LAYOUT, reader level: the laid-out line gives the same item as the line -/
+theorem relayout_lineRes (o : Rd.ReadOpts) (p : Rd.Parser) (sec : SecName) (hsec : p.sec = sec) (p0 p1 p2 p3 p4 p5 a : Str) (f : Fields)
+    (h : RelayOK sec p1 p2 p3 p4 a f) :
+    Rd.lineRes o p a = Rd.lineRes o p (relayoutLine1 sec p0 p1 p2 p3 p4 p5 a) ∧
+    Rd.isTitle a = false ∧ Rd.isTitle (relayoutLine1 sec p0 p1 p2 p3 p4 p5 a) = false := by
+  have hs : strip (splitEol a).1 = strip a := strip_splitEol a
+  have ha' : relayoutLine1 sec p0 p1 p2 p3 p4 p5 a =
+      layoutFields f (blanksOf p0) (blanksOf p1) (blanksOf p2) (blanksOf p3) (blanksOf p4) (blanksOf p5) ++ (splitEol a).2 := by
+    unfold relayoutLine1
+    simp only [hs, h.parsed]
+  have hstrip : strip (relayoutLine1 sec p0 p1 p2 p3 p4 p5 a) =
+      layoutFields f [] (blanksOf p1) (blanksOf p2) (blanksOf p3) (descrPad f (blanksOf p4)) [] := by
+    rw [ha']
+    exact strip_layout sec f h.conf _ _ _ _ _ _ _ (allWs_blanksOf p0) (allWs_blanksOf p4) (allWs_blanksOf p5) (splitEol_allWs a)
+  have hL : parseHeaderLine sec (strip (relayoutLine1 sec p0 p1 p2 p3 p4 p5 a)) = some f := by
+    rw [hstrip]
+    exact C04_main_all sec f [] _ _ _ _ [] h.conf h.pads
+  obtain ⟨c, cs, hn⟩ : ∃ c cs, f.name = c :: cs := by
+    cases hf : f.name with
+    | nil => exact absurd hf h.conf.name_ne
+    | cons c cs => exact ⟨c, cs, rfl⟩
+  have hhead : (strip (relayoutLine1 sec p0 p1 p2 p3 p4 p5 a)).head? = f.name.head? := by
+    rw [hstrip, hn]; simp [layoutFields, hn]
+  have hne' : strip (relayoutLine1 sec p0 p1 p2 p3 p4 p5 a) ≠ [] := by
+    rw [hstrip]; simp [layoutFields, hn]
+  have hh' : (strip (relayoutLine1 sec p0 p1 p2 p3 p4 p5 a)).head? ≠ some '#' ∧
+      (strip (relayoutLine1 sec p0 p1 p2 p3 p4 p5 a)).head? ≠ some '~' := by rw [hhead]; exact h.name_head
+  have title_false : ∀ x : Str, strip x ≠ [] → (strip x).head? ≠ some '~' → Rd.isTitle x = false := by
+    intro x hx hh
+    rw [Rd.isTitle_eq]
+    cases hsx : strip x with
+    | nil => rfl
+    | cons c cs =>
+      rw [hsx] at hh
+      unfold Rd.startsTilde
+      split
+      · rename_i heq; cases heq; exact absurd rfl hh
+      · rfl
+  refine ⟨?_, title_false a h.line_ne h.line_head.2, title_false _ hne' hh'.2⟩
+  rw [lineRes_item o p a f h.line_ne h.line_head (by rw [hsec]; exact h.parsed),
+    lineRes_item o p _ f hne' hh' (by rw [hsec]; exact hL)]
+
+/-- the side condition of `relayout` on the document: line `k` is an item line of a header-items section whose parser hands
+`sec` to the line grammar, and `RelayOK` -/
+def RelayoutOK (d : Doc) (k : Nat) (sec : SecName) (p1 p2 p3 p4 : Str) : Prop :=
+  ∀ a, d[k]? = some a → ∃ t f, ctxAt .pre d k = .sec t ∧ kindOf t = .items ∧
+    (∀ ver p, Rd.mkParser (Rd.lineStrip t) ver = .ok p → p.sec = sec) ∧ RelayOK sec p1 p2 p3 p4 a f
+
+theorem sim_relayout (dlm : Dlm) (d : Doc) (k : Nat) (sec : SecName) (p0 p1 p2 p3 p4 p5 : Str)
+    (h : RelayoutOK d k sec p1 p2 p3 p4) : Sim dlm .pre d (relayout k sec p0 p1 p2 p3 p4 p5 d) := by
+  apply sim_mapAt
+  intro a ha
+  obtain ⟨t, f, hc, hk, hp, hr⟩ := h a ha
+  right
+  have key := fun o p hsec => relayout_lineRes o p sec hsec p0 p1 p2 p3 p4 p5 a f hr
+  have nt : Rd.isTitle a = false ∧ Rd.isTitle (relayoutLine1 sec p0 p1 p2 p3 p4 p5 a) = false := by
+    have := key ⟨false, .preserve⟩ ⟨.metadata, sec, [], []⟩ rfl
+    exact this.2
+  refine ⟨nt.1, nt.2, ?_⟩
+  rw [hc]
+  simp only [BodyEq, hk]
+  intro o ver p hmk
+  exact (key o p (hp ver p hmk)).1
 
 end Lasio.Tf
